@@ -6,6 +6,7 @@ use std::collections::{BTreeMap, HashSet};
 
 pub struct ViolationRec {
     pub case_seed: u64,
+    pub index: u64,
     pub variant: String,
     pub finding: Finding,
     pub case: Value,
@@ -27,6 +28,8 @@ pub struct Acc {
     pub violation_sigs: BTreeMap<String, u64>,
     pub samples: Vec<Value>,
     pub verbose: bool,
+    /// index of the case being executed (set by the shard loop / replay)
+    pub cur_index: u64,
 }
 
 impl Acc {
@@ -56,6 +59,7 @@ impl Acc {
             }
             self.violations.push(ViolationRec {
                 case_seed,
+                index: self.cur_index,
                 variant: variant.to_string(),
                 finding: f,
                 case,
@@ -81,6 +85,7 @@ impl Acc {
             "violation_sigs": self.violation_sigs,
             "violations": self.violations.iter().map(|v| json!({
                 "case_seed": v.case_seed.to_string(),
+                "index": v.index.to_string(),
                 "variant": v.variant,
                 "signature": v.finding.signature,
                 "detail": v.finding.detail,
